@@ -17,6 +17,8 @@ use tracing::Span;
 pub struct InFlightRequests<Resp> {
     request_data: FnvHashMap<u64, RequestData<Resp>>,
     deadlines: DelayQueue<u64>,
+    /// When `deadlines` was created.
+    deadlines_created: tokio::time::Instant,
 }
 
 impl<Resp> Default for InFlightRequests<Resp> {
@@ -24,6 +26,7 @@ impl<Resp> Default for InFlightRequests<Resp> {
         Self {
             request_data: Default::default(),
             deadlines: Default::default(),
+            deadlines_created: tokio::time::Instant::now(),
         }
     }
 }
@@ -35,6 +38,8 @@ struct RequestData<Res> {
     response_completion: oneshot::Sender<Res>,
     /// The key to remove the timer for the request's deadline.
     deadline_key: delay_queue::Key,
+    /// When the armed timer fires.
+    timer_deadline: tokio::time::Instant,
     /// How much of the time until the deadline is not yet covered by the armed timer.
     beyond_timer: Duration,
 }
@@ -69,22 +74,43 @@ impl<Res> InFlightRequests<Res> {
         span: Span,
         response_completion: oneshot::Sender<Res>,
     ) -> Result<(), AlreadyExistsError> {
+        self.renew_deadlines();
         match self.request_data.entry(request_id) {
             hash_map::Entry::Vacant(vacant) => {
                 let timeout = ctx.deadline.time_until();
                 let timer_span = timeout.min(MAX_TIMER_SPAN);
-                let deadline_key = self.deadlines.insert(request_id, timer_span);
+                let timer_deadline = tokio::time::Instant::now() + timer_span;
+                let deadline_key = self.deadlines.insert_at(request_id, timer_deadline);
                 vacant.insert(RequestData {
                     ctx,
                     span,
                     response_completion,
                     deadline_key,
+                    timer_deadline,
                     beyond_timer: timeout - timer_span,
                 });
                 Ok(())
             }
             hash_map::Entry::Occupied(_) => Err(AlreadyExistsError),
         }
+    }
+
+    /// A `DelayQueue` can only arm a timer that lies less than 2^36 ms (about 2.2 years) past the
+    /// point its timer wheel last advanced to, and the wheel only advances when a timer fires. On
+    /// a connection that stays open long enough without a deadline expiring, a new timer would
+    /// be out of that range; so once the queue is older than a single timer can span, the
+    /// pending timers move to a fresh queue.
+    fn renew_deadlines(&mut self) {
+        if self.deadlines_created.elapsed() < MAX_TIMER_SPAN {
+            return;
+        }
+        let mut deadlines = DelayQueue::with_capacity(self.request_data.len());
+        for (request_id, request_data) in &mut self.request_data {
+            request_data.deadline_key =
+                deadlines.insert_at(*request_id, request_data.timer_deadline);
+        }
+        self.deadlines = deadlines;
+        self.deadlines_created = tokio::time::Instant::now();
     }
 
     /// Removes a request without aborting. Returns true iff the request was found.
@@ -141,7 +167,10 @@ impl<Res> InFlightRequests<Res> {
                     // The deadline was further away than a single timer can span.
                     let timer_span = request_data.beyond_timer.min(MAX_TIMER_SPAN);
                     request_data.beyond_timer -= timer_span;
-                    request_data.deadline_key = self.deadlines.insert(request_id, timer_span);
+                    request_data.timer_deadline = tokio::time::Instant::now() + timer_span;
+                    request_data.deadline_key = self
+                        .deadlines
+                        .insert_at(request_id, request_data.timer_deadline);
                     return Some(request_id);
                 }
             }
